@@ -265,3 +265,25 @@ def leak_or_dup_calls(facts):
                 if callee_matches(c, n) or callee_matches(d, n):
                     out.append((b, bi, t, n))
     return out
+
+
+def ctor_fields(facts, e):
+    """(adt::variant path, {field: expr}) of an expression that builds a struct / enum value: an
+    aggregate, or a call to a crate function that only builds one from its parameters (`Item::delete(k, c)`
+    and `Item::Delete { key: k, conflict: c }` are the same thing)."""
+    e = norm(e)
+    if e[0] == "agg" and e[1] == "adt":
+        return e[2], dict(zip(e[4], e[3])) if e[4] else {str(i): x for i, x in enumerate(e[3])}
+    if e[0] == "call":
+        c = facts.by_spath.get(strip_generics(e[1]), [])
+        if len(c) == 1 and not c[0].is_closure and not any(True for _ in c[0].calls()):
+            b = c[0]
+            try:
+                r = norm(return_expr(b))
+            except Exception:
+                return None
+            if r[0] == "agg" and r[1] == "adt":
+                m = {V(b.local_name.get(i + 1, "arg%d" % (i + 1))): a for i, a in enumerate(e[2])}
+                r = norm(subst(r, m))
+                return r[2], dict(zip(r[4], r[3])) if r[4] else {str(i): x for i, x in enumerate(r[3])}
+    return None
